@@ -457,12 +457,14 @@ pub fn check(run: &Run) -> Value {
             );
         }
     }
+    let merge = crate::c07b::merge_points(run, &mut total);
     total.report(run);
     println!(
-        "C07 sweep: cases={} serializations={} processes={} cases-produced-in->=2-processes={} (max {} processes per case)",
-        total.cases, total.executions, shards, cross_checked, max_processes_per_case
+        "C07 sweep: cases={} serializations={} processes={} cases-produced-in->=2-processes={} (max {} processes per case) merge_points={}",
+        total.cases, total.executions, shards, cross_checked, max_processes_per_case, merge
     );
     json!({
+        "merge_points_of_the_dom_state_graph": merge,
         "states": total.cases,
         "transitions": total.executions,
         "traces_validated_against_impl": total.executions,
@@ -477,6 +479,9 @@ pub fn check(run: &Run) -> Value {
 }
 
 pub fn replay(case: &Value) -> Vec<(String, String)> {
+    if case.get("a").is_some() && case.get("b").is_some() {
+        return crate::c07b::replay(case);
+    }
     let r: Replay07 = serde_json::from_value(case.clone()).unwrap_or_else(|e| crate::evidence::machinery_failure(&format!("bad replay: {}", e)));
     let mut out = SweepOut::default();
     judge_case(&r.case, Tier::Thorough, &mut out);
